@@ -591,6 +591,9 @@ func run(r *hk.Run) {
 		if res.Unstable {
 			r.Count("unstable-error-after-3-attempts")
 		}
+		if res.Retried > 0 {
+			r.Count("retry-hellos-collapsed")
+		}
 		sort.SliceStable(res.Viol, func(a, b int) bool { return res.Viol[a].At < res.Viol[b].At })
 		for _, v := range res.Viol {
 			// at most 4 reports per kind of violation; the kind is everything before the cell's shape, so that
